@@ -70,6 +70,9 @@ var Ops = map[string]Info{
 	"delete-fe": {Destroy, 1, true}, "delete-se": {Destroy, 1, true},
 	"butlast":           {Fresh, 1, true}, "butlast1": {Fresh, 1, true}, "subseq": {Fresh, 1, true}, "subseq1": {Fresh, 1, true},
 	"copy-list": {Fresh, 1, true}, "copy-seq": {Fresh, 1, true}, "reverse": {Fresh, 1, true}, "mapcar": {Fresh, 1, true},
+	// cons / list called by mapcar over two lists (the caller hands the same argument vector to every call), read back
+	// through car / cadr: the elements of the first / second list up to the shorter length
+	"mapcons": {Fresh, 2, true}, "maplist2": {Fresh, 2, true},
 	"push": {Rebind, 1, true}, "pop": {Rebind, 1, false},
 	"setcar": {PointMut, 1, false}, "setnth": {PointMut, 1, false}, "setelt": {PointMut, 1, false},
 	"rplaca": {PointMut, 1, true},
@@ -384,6 +387,17 @@ func (s *State) Plan(op Op) *Plan {
 		p.Res = cp(a)
 	case "reverse":
 		p.Res = rev(a)
+	case "mapcons", "maplist2":
+		b := s.Val[op.B]
+		n := len(a)
+		if len(b) < n {
+			n = len(b)
+		}
+		if op.F == "mapcons" {
+			p.Res = cp(a[:n])
+		} else {
+			p.Res = cp(b[:n])
+		}
 	case "mapcar":
 		if la == 0 {
 			p.Skip = "mapcar-on-nil" // slip signals a type-error for (mapcar f nil); outside this property
